@@ -234,7 +234,11 @@ class Vertex(base.BaseObject):
 
         if link in self._links:
             self._links.remove(link)
-            link.unlink_from(self)
+            # a link may name this vertex more than once (e.g. a self-loop);
+            # every occurrence has to go, or the link would still claim a
+            # vertex that no longer lists it
+            while self in link.vertices:
+                link.unlink_from(self)
 
         self._qa_neighbors_invalidate()
 
